@@ -1103,6 +1103,9 @@ func (c06) Exec(line string) (string, []Fail) {
 	if strings.HasPrefix(line, "pipe ") {
 		return c06Pipe(line)
 	}
+	if strings.HasPrefix(line, "idem ") {
+		return c06Idem(line)
+	}
 	if strings.HasPrefix(line, "big ") {
 		return c06Big(line)
 	}
@@ -1532,6 +1535,18 @@ func (c06) Gen(rng *rand.Rand, tier string, emit func(string)) {
 		"uniq mem c=2 w=1 b=10 ns=0 na=- cats=73,72 stats=74 dm=* 61:6161:-:73=s78,72=s31:74 62:6161:4:72=s31,73=s78:6f~71=3 63:6161:-:73=s78:- 64:6161:-:73=s78,72=s:-",
 	}
 	for _, l := range corpus {
+		emit(l)
+	}
+	// count = 0 (outside the quantifier counts >= 1): observation of what the code does, compared with the model only;
+	// classes whose merged count does not depend on the member order ([0], [0,0], [0,3]; [0,0,1] would: see
+	// zero_count_order_dependent in Props/C06.lean)
+	for _, l := range []string{
+		"uniq mem c=1 w=1 b=1 ns=0 na=4e41 cats=- stats=- dm=* 61:6161:0:-:-",
+		"uniq mem c=1 w=1 b=1 ns=1 na=4e41 cats=- stats=- dm=* 61:6161:0:-:-",
+		"uniq disk c=1 w=1 b=1 ns=0 na=4e41 cats=- stats=73 dm=* 61:6161:0:-:-",
+		"uniq mem c=2 w=2 b=2 ns=0 na=4e41 cats=- stats=73 dm=* 61:6161:0:73=s78:- 62:6161:0:73=s79:- 63:6767:0:-:- 64:6767:3:-:-",
+		"uniq mem c=2 w=1 b=4 ns=1 na=4e41 cats=- stats=73 dm=* 64:6767:3:-:- 63:6767:0:-:- 62:6161:0:73=s79:- 61:6161:0:73=s78:-",
+	} {
 		emit(l)
 	}
 	c06GenChunk(rng, tier, emit)
